@@ -111,6 +111,7 @@ class SqlStorage(MutableMapping):
     def __getitem__(self, item):
         try:
             with sqlite3.connect(self.dbfile) as db:
+                db.execute("BEGIN")   # both selects must see the same committed state
                 result = db.execute("SELECT id, uri FROM pyro_names WHERE name=?", (item,)).fetchone()
                 if result:
                     dbid, uri = result
